@@ -56,6 +56,11 @@ const STATEMENTS: &[(&str, &[&str])] = &[
     ("y := (it $+, it $*)", &["y"]),
     ("f := () -> any { return it $] }", &["f"]),
     ("f := () -> any { return it() }", &["f"]),
+    // a run-time value whose declared type is wider than its own, placed in a container later:
+    // the incremental route sees the value (a constant), the batch route its declared type
+    ("c := mut int|float 0", &["c"]),
+    ("x := [y, y]", &["x"]),
+    ("y := match x { v: [int] => 1, v: [int|float] => 2, v: [any] => 3, => 4, }", &["y"]),
 ];
 
 fn dump_vars(interp: &Interpreter, names: &BTreeSet<String>) -> String {
@@ -64,7 +69,8 @@ fn dump_vars(interp: &Interpreter, names: &BTreeSet<String>) -> String {
     let mut parts = Vec::new();
     for n in names {
         match interp.get_variable(n) {
-            Some(v) => parts.push(format!("{n}={}", c.dump(v))),
+            // with the run-time type tag: it is observable (type arms, if-set, exhausted iterators)
+            Some(v) => parts.push(format!("{n}={} :: {}", c.dump(v), Ty::from_impl(&simplesl::variable::Typed::as_type(v)).print())),
             None => parts.push(format!("{n}=<missing>")),
         }
     }
@@ -104,7 +110,7 @@ fn run_groups(groups: &[String], names: &BTreeSet<String>) -> Route {
             }
         };
         match guard(|| code.exec_unscoped(&mut interp)) {
-            Ok(Ok(v)) => last = canon_typed(&v),
+            Ok(Ok(v)) => last = format!("{} :: {}", canon_typed(&v), Ty::from_impl(&v.as_type()).print()),
             Ok(Err(e)) => {
                 result = Some(Route::Error(core::exec_error_kind(&e)));
                 break;
